@@ -54,12 +54,14 @@ CHECKS = {
     "C02": {
         "level": "fault_enumeration",
         "assumptions": ["liveness is judged with a 20 s bound (operations take milliseconds) plus a goroutine dump; only generated event orders are seen",
-                        "a local Close is not by itself a terminal event for pending calls (graceful close waits for their replies, see C08)"],
+                        "a local Close is not by itself a terminal event for pending calls (graceful close waits for their replies, see C08)",
+                        "a completion channel shared by more calls than its capacity is checked only with a consumer that keeps receiving from it (a full channel nobody reads blocks the framework by design: AsyncCall documents that the caller provides enough buffer)"],
         "runs": [
             {"pkg": "core", "run": "^TestC02Completion$", "quick": 1500, "thorough": 60000, "shards_thorough": 8},
             {"pkg": "core", "run": "^TestC02SendWindow$", "quick": 600, "thorough": 30000, "shards_thorough": 4},
             {"pkg": "core", "run": "^TestC02NestedCall$", "quick": 300, "thorough": 10000, "shards_thorough": 4},
             {"pkg": "core", "run": "^TestC02WriteQueue$", "quick": 200, "thorough": 8000, "shards_thorough": 4},
+            {"pkg": "core", "run": "^TestC02SharedChannel$", "quick": 300, "thorough": 15000, "shards_thorough": 4},
             {"pkg": "core", "run": "^TestC02HTTPReplies$", "quick": 400, "thorough": 20000, "shards_thorough": 4},
             {"pkg": "core", "run": "^TestC02WebsocketReplies$", "quick": 300, "thorough": 10000, "shards_thorough": 4},
             {"pkg": "core", "run": "^TestC02CutSweep$", "quick": 1, "thorough": 1, "rapid": False},
